@@ -404,6 +404,7 @@ type c16Call struct {
 	Mutation string `json:"mutation,omitempty"`
 	Out      any    `json:"out,omitempty"`
 	OutBad   bool   `json:"out_bad,omitempty"`
+	OutNil   bool   `json:"out_nil,omitempty"` // the handler's output is a nil map (JSON null) under an object output schema
 	OwnText  bool   `json:"own_content,omitempty"`
 	Shape    string `json:"result_shape,omitempty"` // what the handler returns besides its output: "" nil | own | empty (&CallToolResult{}) | meta-only | canned (one result object reused by every call) | prefilled (StructuredContent set by the handler itself)
 	MRTR     bool   `json:"mrtr,omitempty"`         // the handler first asks for the client's roots (InputRequests) and answers on the second round
@@ -433,6 +434,8 @@ func runC16(c *vh.Case) {
 	if typed {
 		out = &sch{Type: "object", Addl: bptr(false), Req: []string{"echo", "total"}, Props: map[string]*sch{"echo": {Type: "string"}, "total": {Type: "integer"}}}
 	}
+	// a dynamically described tool: the handler takes its arguments as `any`, the explicit schema is all there is
+	inAny := !typed && r.Chance(1, 3)
 	var mu sync.Mutex
 	var invoked int
 	var received string
@@ -473,14 +476,23 @@ func runC16(c *vh.Case) {
 		if out != nil {
 			tool.OutputSchema = out.toMap()
 		}
-		mcp.AddTool(server, tool, func(ctx context.Context, req *mcp.CallToolRequest, a map[string]any) (*mcp.CallToolResult, any, error) {
+		body := func(req *mcp.CallToolRequest, a any) (*mcp.CallToolResult, any, error) {
 			mu.Lock()
 			defer mu.Unlock()
 			invoked++
 			b, _ := json.Marshal(a)
 			received = string(b)
 			return mkResult(req), cur.Out, nil
-		})
+		}
+		if inAny {
+			mcp.AddTool(server, tool, func(ctx context.Context, req *mcp.CallToolRequest, a any) (*mcp.CallToolResult, any, error) {
+				return body(req, a)
+			})
+		} else {
+			mcp.AddTool(server, tool, func(ctx context.Context, req *mcp.CallToolRequest, a map[string]any) (*mcp.CallToolResult, any, error) {
+				return body(req, a)
+			})
+		}
 	}
 	client := mcp.NewClient(&mcp.Implementation{Name: "c", Version: "1"}, nil)
 	client.AddRoots(&mcp.Root{URI: "file:///r", Name: "r"})
@@ -493,7 +505,7 @@ func runC16(c *vh.Case) {
 	var calls []c16Call
 	accepted, rejected := 0, 0
 	defer func() {
-		c.SetSpec(map[string]any{"typed": typed, "input_schema": in, "output_schema": out, "calls": calls})
+		c.SetSpec(map[string]any{"typed": typed, "in_any": inAny, "input_schema": in, "output_schema": out, "calls": calls})
 		cs.Close()
 		pair.SS.Wait()
 		time.Sleep(11 * time.Second)
@@ -534,6 +546,9 @@ func runC16(c *vh.Case) {
 				case float64:
 					call.Out = "seventeen"
 				}
+			} else if out.Type == "object" && r.Chance(1, 5) {
+				call.OutNil = true
+				call.Out = map[string]any(nil)
 			}
 		}
 		mu.Lock()
@@ -593,6 +608,26 @@ func runC16(c *vh.Case) {
 			if err != nil || res.IsError {
 				c.Violate("valid-call-failed", "valid call failed: %v %s", err, vh.JSON(res))
 				return
+			}
+			continue
+		}
+		if call.OutNil {
+			// a nil map is JSON null, not an object: the call may fail, or the SDK may take it for the empty object;
+			// a successful result carries valid structured content either way, and its rendering if the handler gave no content
+			if err == nil && !res.IsError {
+				gotSC, _ := json.Marshal(res.StructuredContent)
+				var decoded any
+				json.Unmarshal(gotSC, &decoded)
+				if !out.validate(decoded) {
+					c.Violate("invalid-output-returned", "the handler returned a nil map; the successful result carries structured content %s, which is not valid under the output schema %s", gotSC, vh.JSON(out))
+					return
+				}
+				tc, _ := append(res.Content, nil)[0].(*mcp.TextContent)
+				if !call.OwnText && (len(res.Content) != 1 || tc == nil || !jsonEqual([]byte(tc.Text), gotSC)) {
+					c.Violate("text-rendering-missing", "the handler returned a nil map and no content: expected one text block rendering %s, got %s", gotSC, vh.JSON(res.Content))
+					return
+				}
+				c.Count("nil_map_outputs_returned", 1)
 			}
 			continue
 		}
@@ -801,10 +836,11 @@ func runC16Cache(c *vh.Case) {
 			return
 		}
 	}
+	// (a nil map is JSON null, at best the empty object: neither has the required member)
 	for _, k := range []struct {
 		out   map[string]any
 		valid bool
-	}{{map[string]any{"ok": true}, true}, {map[string]any{"q": "x"}, false}, {map[string]any{"ok": true, "q": "x"}, false}, {map[string]any{}, false}} {
+	}{{map[string]any{"ok": true}, true}, {map[string]any{"q": "x"}, false}, {map[string]any{"ok": true, "q": "x"}, false}, {map[string]any{}, false}, {nil, false}, {map[string]any{"ok": true}, true}} {
 		mapOut = k.out
 		res, err := pair.CS.CallTool(ctx, &mcp.CallToolParams{Name: "maps", Arguments: map[string]any{"q": "x"}})
 		failed := err != nil || res.IsError
